@@ -19,6 +19,8 @@ from .core import (Ctx, HarnessError, Violation, execute, h64, ops_digest,
 
 VERIF = os.path.dirname(os.path.dirname(os.path.abspath(__file__)))
 KNOWN_FILE = os.path.join(VERIF, "known_findings.json")
+# development only (mutant runs): write evidence/replays elsewhere
+OUT = os.environ.get("VERIF_OUT", VERIF)
 
 MACHINES = {
     "C03": "vsim.machines.compose",
@@ -169,7 +171,7 @@ def repo_head():
 
 
 def write_replay(prop, verif_seed, index, tier, cfg, ops, signature, detail):
-    d = os.path.join(VERIF, "replays", prop)
+    d = os.path.join(OUT, "replays", prop)
     os.makedirs(d, exist_ok=True)
     path = os.path.join(d, "%d-%d.json" % (verif_seed, index))
     with open(path, "w") as f:
@@ -388,8 +390,8 @@ def run_check(prop, tier, verif_seed, workers=None, out=sys.stdout):
         },
         "assumptions": machine_cls.ASSUMPTIONS,
     }
-    os.makedirs(os.path.join(VERIF, "evidence"), exist_ok=True)
-    with open(os.path.join(VERIF, "evidence", "%s.json" % prop), "w") as f:
+    os.makedirs(os.path.join(OUT, "evidence"), exist_ok=True)
+    with open(os.path.join(OUT, "evidence", "%s.json" % prop), "w") as f:
         json.dump(ev, f, indent=1, sort_keys=True)
 
     for l in lines:
